@@ -82,6 +82,27 @@ func Start() (*Node, error) {
 	return n, nil
 }
 
+// StartAt boots a node over an EXISTING node directory (e.g. a copy of another node's stores): the
+// chain, state and pool are loaded from disk exactly as after a process restart.
+func StartAt(dir string) (*Node, error) {
+	if current != nil {
+		return nil, fmt.Errorf("boot: a node is already running in this process")
+	}
+	n := &Node{Dir: dir}
+	n.oldCwd, _ = os.Getwd()
+	if err := os.Chdir(dir); err != nil {
+		return nil, err
+	}
+	common.Init(0, "1.ini", "dev")
+	account.VerifResetProcessCaches()
+	ConfigureForks()
+	if err := n.up(); err != nil {
+		return nil, err
+	}
+	current = n
+	return n, nil
+}
+
 func (n *Node) up() (err error) {
 	defer func() {
 		if r := recover(); r != nil {
